@@ -87,11 +87,11 @@ func (rn *runner) deadlines(r *lib.RNG) {
 		spec := deadlineWorld(pool)
 		w, err := NewWorld(spec)
 		if err != nil {
-			res.Note("deadline world: %v", err)
+			res.Fatalf("deadline world: %v", err)
 			return
 		}
 		if err := rn.setWorld(w); err != nil {
-			res.Note("deadline world: %v", err)
+			res.Fatalf("deadline world: %v", err)
 			return
 		}
 		lines := make([]string, len(inputs))
@@ -100,7 +100,7 @@ func (rn *runner) deadlines(r *lib.RNG) {
 		}
 		answers, err := rn.drv.AskAll(lines)
 		if err != nil {
-			res.Note("deadline world: %v", err)
+			res.Fatalf("deadline world: %v", err)
 			return
 		}
 		hs := httptest.NewServer(jsonrpc.NewHTTP(w.Server, log.NewNopZapLogger()).WithRequestTimeout(timeout))
@@ -131,6 +131,7 @@ func (rn *runner) deadlines(r *lib.RNG) {
 				o.Calls, o.RecErrs = w.taken()
 			case "ws":
 				if !wsOK {
+					res.Fatalf("deadline family: websocket connection not available")
 					continue
 				}
 				w.reset()
